@@ -141,9 +141,17 @@ def build_and_prove(ctx: Ctx, mod) -> bool:
     ok = True
     with core.build_lock():
         ctx.kernels = core.regen()
+        unlocated = []
         for name, st in ctx.kernels.items():
             if not st["located"]:
                 ctx.notes.append(f"kernel {name} not located ({st.get('reason')}); committed fallback definition used")
+                if ctx.prop in st.get("props", []):
+                    # the theorems of this property would be about the committed fallback text, not about the
+                    # current source: the tie is broken, which is reported like a broken proof obligation
+                    unlocated.append({"file": "vlib/ktab", "line": 0, "stmt": f"kernel:{name}",
+                                      "msg": f"kernel {name} can no longer be located in the source ({st.get('reason')})"})
+            elif st.get("same") is False and ctx.prop in st.get("props", []):
+                pass  # twins that differ make the twin theorem fail by themselves
         r = core.make([f"Model/Units_{ctx.area}.vo"])
         if not r["ok"]:
             ctx.violation("no-failing-input-found", "model-build", {"errors": r["errors"][:5]})
@@ -171,6 +179,9 @@ def build_and_prove(ctx: Ctx, mod) -> bool:
     for th in ths:
         discharged = r["ok"] and pr["ok"] and th in pr["assumptions"]
         ctx.obligations.append({"theorem": th, "discharged": bool(discharged), "assumptions": pr["assumptions"].get(th)})
+    if unlocated:
+        ok = False
+        broken_stmts = broken_stmts + unlocated
     ctx.extra["broken_obligations"] = broken_stmts
     return ok
 
